@@ -16,6 +16,9 @@ mod c06;
 mod c07;
 mod c09;
 mod c16;
+mod c17;
+mod c17_async;
+mod c17_rayon;
 mod c18;
 mod c10;
 mod c11;
@@ -81,6 +84,7 @@ fn checks() -> Vec<Check> {
         Check { id: "C14", run: c14::run, meta: c14::meta, replay: c14::replay },
         Check { id: "C15", run: c15::run, meta: c15::meta, replay: c15::replay },
         Check { id: "C16", run: c16::run, meta: c16::meta, replay: c16::replay },
+        Check { id: "C17", run: c17::run, meta: c17::meta, replay: c17::replay },
         Check { id: "C18", run: c18::run, meta: c18::meta, replay: c18::replay },
         Check { id: "C19", run: mp::c19_run, meta: mp::c19_meta, replay: mp::c19_replay },
     ]
